@@ -392,6 +392,7 @@ class Interp:
         self.lost_patterns: list[str] = []
         self.cls_fields: dict = {}
         self._aux: dict = {}
+        self.strenum: dict = {}
         self.rec_funcs: set = set()
         self.rec_params: dict = {}
         self.rec_returns: dict = {}
@@ -452,7 +453,7 @@ class Interp:
                 if nv != old:
                     d.fields[ck.v] = nv
                     self.version += 1
-            elif d.fields is not None and (d.fields or not k.bottom):
+            elif d.fields is not None and not (k.bottom and not k.prov) and (d.fields or not k.bottom):
                 if d.fields:
                     self.version += 1
                 d.fields = None
@@ -461,6 +462,17 @@ class Interp:
             if new != d.v:
                 d.v = new
                 self.version += 1
+
+    def copy_dict(self, dst: Dict, src: Dict) -> None:
+        """dst.update(src), keeping per-key knowledge when the keys of src are known constants."""
+        if src.fields is not None and src.fields:
+            if dst.fields is None and dst.k.bottom:
+                dst.fields = {}
+                self.version += 1
+            for k, v in list(src.fields.items()):
+                self.grow_dict(dst, const(k), v)
+        elif not (src.k.bottom and src.v.bottom):
+            self.grow_dict(dst, src.k, src.v)
 
     def grow_field(self, r: Rec, name: str, av: AV) -> None:
         old = r.fields.get(name, BOT)
@@ -795,14 +807,19 @@ class Interp:
         if items is not None:
             cur: dict | None = env
             breaks: list[dict] = []
-            for x in items:
+            base_ctx = fr.ctx
+            for i_, x in enumerate(items):
                 if cur is None:
                     break
                 lp = _Loop()
                 fr.loops.append(lp)
                 e = dict(cur)
-                self.assign(s.target, x, e, fr, s, None)
-                out = self.block(s.body, e, fr)
+                fr.ctx = base_ctx + (("it", id(s), i_),)  # unrolled: every iteration is its own calling context
+                try:
+                    self.assign(s.target, x, e, fr, s, None)
+                    out = self.block(s.body, e, fr)
+                finally:
+                    fr.ctx = base_ctx
                 fr.loops.pop()
                 breaks += lp.breaks
                 cur = join_env(out, *lp.continues)
@@ -1208,7 +1225,7 @@ class Interp:
             elif isinstance(nd, Dict) and isinstance(s.op, ast.BitOr):
                 for o in v.refs:
                     if isinstance(o, Dict):
-                        self.grow_dict(nd, o.k, o.v)
+                        self.copy_dict(nd, o)
                 self.event("update", frozenset({nd}), BOT, "", v, fr, s)
                 mutated = True
         if isinstance(s.target, ast.Subscript):
@@ -1480,7 +1497,7 @@ class Interp:
             if k is None:
                 for o in vv.refs:
                     if isinstance(o, Dict):
-                        self.grow_dict(d, o.k, o.v)
+                        self.copy_dict(d, o)
                 if e.keys.index(k) > 0 or len(e.keys) > 1:
                     self.event("update", frozenset({d}), BOT, "", vv, fr, e, detail="dict display with ** unpacking")
             else:
@@ -1614,7 +1631,7 @@ class Interp:
                 d = self.dict_(fr, e, "binop")
                 for n in [*an, *bn]:
                     if isinstance(n, Dict):
-                        self.grow_dict(d, n.k, n.v)
+                        self.copy_dict(d, n)
                 self.event("update", frozenset({d}), BOT, "", b, fr, e, detail="dict union")
                 outs.append(ref(d))
             else:
@@ -1638,7 +1655,8 @@ class Interp:
     def e_Lambda(self, e, env, fr):
         fi = getattr(e, "_func", None)
         if fi is None:
-            return self.unknown_value("lambda")
+            fi = FuncInfo(name="<lambda>", qualname=f"<lambda@{getattr(e, 'lineno', 0)}:{getattr(e, 'col_offset', 0)}>", node=e, module=fr.mod, cls=None)
+            e._func = fi
         fn = self.memo(("lambda", fr.ctx, id(e)), lambda: Func(("lambda", fr.ctx, id(e)), fi, None, env))
         fn.closure = env
         return ref(fn)
@@ -1670,23 +1688,29 @@ class Interp:
         itv = self.ev(g.iter, env, fr)
         items = self.unrolled(g.iter, itv)
         elems = items if items is not None else [self.iterate(itv, ("comp", token, id(g)), fr, g.iter)]
-        for el in elems:
+        base_ctx = fr.ctx
+        for i_, el in enumerate(elems):
             if el.bottom and not el.prov:
                 continue
             e2 = dict(env)
-            self.assign(g.target, el, e2, fr, g, None)
-            n = len(fr.facts)
-            ok = True
-            for c in g.ifs:
-                t, f, ft, ff = self.test(c, e2, fr)
-                if not t:
-                    ok = False
-                    break
-                fr.facts.extend(ft)
-                e2 = self.narrowed(e2, ft)
-            if ok:
-                self._generators(gens[1:], e2, fr, token, body)
-            del fr.facts[n:]
+            if items is not None:
+                fr.ctx = base_ctx + (("it", id(g), i_),)
+            try:
+                self.assign(g.target, el, e2, fr, g, None)
+                n = len(fr.facts)
+                ok = True
+                for c in g.ifs:
+                    t, f, ft, ff = self.test(c, e2, fr)
+                    if not t:
+                        ok = False
+                        break
+                    fr.facts.extend(ft)
+                    e2 = self.narrowed(e2, ft)
+                if ok:
+                    self._generators(gens[1:], e2, fr, token, body)
+                del fr.facts[n:]
+            finally:
+                fr.ctx = base_ctx
 
     def _comp(self, e, env, fr, kind):
         s = self.seq(fr, e, kind)
@@ -1697,20 +1721,25 @@ class Interp:
             if items is not None:
                 out: list[AV] = []
                 exact = True
-                for el in items:
+                base_ctx = fr.ctx
+                for i_, el in enumerate(items):
                     e2 = dict(env)
-                    self.assign(g.target, el, e2, fr, g, None)
-                    keep = True
-                    for c in g.ifs:
-                        t, f, ft, _ff = self.test(c, e2, fr)
-                        if t and f:
-                            exact = False
-                        if not t:
-                            keep = False
-                            break
-                        e2 = self.narrowed(e2, ft)
-                    if keep:
-                        out.append(self.ev(e.elt, e2, fr).plain())
+                    fr.ctx = base_ctx + (("it", id(g), i_),)
+                    try:
+                        self.assign(g.target, el, e2, fr, g, None)
+                        keep = True
+                        for c in g.ifs:
+                            t, f, ft, _ff = self.test(c, e2, fr)
+                            if t and f:
+                                exact = False
+                            if not t:
+                                keep = False
+                                break
+                            e2 = self.narrowed(e2, ft)
+                        if keep:
+                            out.append(self.ev(e.elt, e2, fr).plain())
+                    finally:
+                        fr.ctx = base_ctx
                 if exact and len(out) <= 64:
                     s.items = out if s.items is None or len(s.items) != len(out) else [join(a, b) for a, b in zip(s.items, out)]
                     return ref(s)
@@ -1731,6 +1760,8 @@ class Interp:
 
     def e_DictComp(self, e, env, fr):
         d = self.dict_(fr, e)
+        if d.fields is None and d.k.bottom:
+            d.fields = {}
 
         def body(e2):
             k = self.ev(e.key, e2, fr)
@@ -1957,7 +1988,27 @@ class Interp:
                 return ref(self.memo(("m", fi.fq, self_av), lambda: Func(("m", fi.fq, self_av), fi, self_av)))
             if attr in c.class_attrs and not attr.startswith("_") and any(b.split(".")[-1] in ("Enum", "IntEnum", "StrEnum", "Flag", "IntFlag") for b in self.repo.external_bases(c)):
                 # member of an Enum class: an object with .name and .value
+                ext_names = {b.split(".")[-1] for b in self.repo.external_bases(c)}
+                try:
+                    raw = self.ev(c.class_attrs[attr], {}, Frame(None, c.module, ("enum", c.fq, attr), cls=c, depth=fr.depth + 1))
+                except _Dead:
+                    raw = BOT
+                if any(isinstance(x, Opaque) and x.what == "enum.auto" for x in raw.refs):
+                    members = [a_ for a_ in c.class_attrs if not a_.startswith("_")]
+                    raw = const(attr.lower()) if "StrEnum" in ext_names else const(members.index(attr) + 1)
+                if "StrEnum" in ext_names or ("str" in ext_names and ext_names & {"Enum"}):
+                    # members are strings: format, compare and index like their value; methods of the class stay callable on them
+                    for v_ in raw.values():
+                        if isinstance(v_, str):
+                            self.strenum[v_] = (c, attr)
+                    return raw
                 member = self.node(("enum", c.fq, attr), lambda: Rec(("enum", c.fq, attr), c))
+                if "value" not in member.fields:
+                    member.fields["name"] = const(attr)
+                    member.fields["value"] = BOT
+                    self.grow_field(member, "value", raw)
+                return ref(member)
+                member = None
                 if "value" not in member.fields:
                     member.fields["name"] = const(attr)
                     member.fields["value"] = BOT
@@ -2045,7 +2096,13 @@ class Interp:
             sc = AV(frozenset(c for c in base.consts if c.v is not None), base.top, base.prov)
             if base.maybe_none():
                 self.raise_("builtins.AttributeError", "may" if (not sc.bottom or base.refs) else "op")
-            if not sc.bottom and e.attr == "value" and sc.concrete:
+            owners = {self.strenum[v_][0].fq: self.strenum[v_][0] for v_ in sc.values() if isinstance(v_, str) and v_ in self.strenum} if sc.concrete else {}
+            meth_owner = next((c_ for c_ in owners.values() if self.repo.lookup_method(c_, e.attr) is not None), None) if len(owners) == 1 and all(isinstance(v_, str) and v_ in self.strenum for v_ in sc.values()) else None
+            if meth_owner is not None and not hasattr(str, e.attr):
+                outs.append(self.class_attr(meth_owner, e.attr, fr, sc))
+            elif not sc.bottom and e.attr == "name" and owners and all(v_ in self.strenum for v_ in sc.values()):
+                outs.append(consts(self.strenum[v_][1] for v_ in sc.values()))
+            elif not sc.bottom and e.attr == "value" and sc.concrete:
                 outs.append(sc)  # member of an Enum class, approximated by its value
             elif not sc.bottom:
                 outs.append(self.lib("scalar." + e.attr, sc))
@@ -2224,7 +2281,7 @@ class Interp:
                             for k, v in o.fields.items():
                                 self.grow_dict(d, const(k), v)
                         else:
-                            self.grow_dict(d, o.k, o.v)
+                            self.copy_dict(d, o)
             return ref(d)
         names = [a for c in reversed(self.repo.mro(ci)) for a in c.ann_attrs]
         is_record = any(c.is_dataclass for c in self.repo.mro(ci)) or any(b.endswith("NamedTuple") for b in ext)
@@ -2327,9 +2384,19 @@ class Interp:
                 env[a.vararg.arg] = ref(s)
             elif a.vararg is not None:
                 env[a.vararg.arg] = const(())
+        extra_kw = {}
         for k, v in kwargs.items():
             if k in pos or k in [p.arg for p in a.kwonlyargs]:
                 env[k] = v
+            else:
+                extra_kw[k] = v
+        if a.kwarg is not None:
+            kd = self.node((nfr.ctx, "kwargs", "dict"), lambda: Dict((nfr.ctx, "kwargs")))
+            if kd.fields is None and kd.k.bottom:
+                kd.fields = {}
+            for k, v in extra_kw.items():
+                self.grow_dict(kd, const(k), v)
+            env[a.kwarg.arg] = ref(kd)
         defaults = list(zip(pos[len(pos) - len(a.defaults) :], a.defaults)) + [(p.arg, d) for p, d in zip(a.kwonlyargs, a.kw_defaults) if d is not None]
         for p, d in defaults:
             if p not in env:
@@ -2686,14 +2753,14 @@ class Interp:
             if len(args) > 1:
                 for o in args[1].refs:
                     if isinstance(o, Dict):
-                        self.grow_dict(d, o.k, o.v)
+                        self.copy_dict(d, o)
             return ref(d)
         if name == "collections.ChainMap":
             d = self.dict_(fr, e, "chainmap")
             for a in args:
                 for o in a.refs:
                     if isinstance(o, Dict):
-                        self.grow_dict(d, o.k, o.v)
+                        self.copy_dict(d, o)
             return ref(d)
         if name == "itertools.starmap":
             s_ = self.seq(fr, e, "iter", "starmap")
@@ -2728,6 +2795,8 @@ class Interp:
                 return ref(s_)
             self.grow_elem(s_, el)
             return ref(s_)
+        if name == "enum.auto":
+            return ref(self.memo(("enum.auto",), lambda: Opaque(("enum.auto",), "enum.auto")))
         if name in ("functools.singledispatch", "functools.singledispatchmethod", "contextlib.contextmanager", "functools.total_ordering", "dataclasses.dataclass", "typing.final", "typing.overload", "abc.abstractmethod"):
             return a0 if args else self.lib("identity-decorator")
         if name in ("collections.OrderedDict",):
@@ -2889,7 +2958,7 @@ class Interp:
                 for a in args:
                     for o in a.refs:
                         if isinstance(o, Dict):
-                            self.grow_dict(d, o.k, o.v)
+                            self.copy_dict(d, o)
                         elif isinstance(o, Seq):
                             el = o.elem
                             for t in el.refs:
@@ -2924,7 +2993,7 @@ class Interp:
                 outs.append(ref(t))
             elif meth == "copy":
                 c = self.dict_(fr, e, "copy")
-                self.grow_dict(c, d.k, d.v)
+                self.copy_dict(c, d)
                 c.factory = d.factory
                 outs.append(ref(c))
             elif meth in ("clear",):
@@ -2959,7 +3028,7 @@ class Interp:
             d = self.dict_(fr, e, "dict()")
             for o in a0.refs:
                 if isinstance(o, Dict):
-                    self.grow_dict(d, o.k, o.v)
+                    self.copy_dict(d, o)
                     d.factory = None
                 elif isinstance(o, (Seq, View)):
                     el = self.iterate(ref(o), None, fr, None)
